@@ -301,8 +301,18 @@ class SpringNetwork(nx.MultiGraph):
 
         fobjs = []
         for obj in nobjs:
-            if obj.size() != 0:
-                fobjs.append(obj)
+            if obj.size() == 0:
+                continue
+            # A floating group of plain springs (no tube, no boundary
+            # condition) carries no load and has nothing to solve for
+            has_tube = any(
+                isinstance(edge["object"], TubeSpring)
+                for _, _, edge in obj.edges(data=True)
+            )
+            has_bc = any("bc" in obj.nodes[node] for node in obj.nodes)
+            if not has_tube and not has_bc:
+                continue
+            fobjs.append(obj)
 
         return fobjs
 
